@@ -23,6 +23,7 @@ type uni[T any] struct {
 	vals []T
 	tag  func(v T) string      // input-class tag for signatures ("" = ordinary)
 	ref  func(a, b T) age.Rank // nil = laws only
+	eqRef func(a, b T) bool   // reference equality only (where the statement fixes no order)
 }
 
 type pairCase struct {
@@ -115,6 +116,9 @@ func laws[T any](r *engine.Rec, u uni[T], which string) {
 				if u.ref != nil && R[i][j] != u.ref(u.vals[i], u.vals[j]) {
 					r.Violation(u.name+": RankValues differs from the natural order"+tg(i, j), fmt.Sprintf("%s: got %v want %v", c.Desc, R[i][j], u.ref(u.vals[i], u.vals[j])), c)
 				}
+				if u.eqRef != nil && (R[i][j] == age.EqualRank) != u.eqRef(u.vals[i], u.vals[j]) {
+					r.Violation(u.name+": RankValues is Equal for values that differ, or not Equal for values built from equal parts"+tg(i, j), fmt.Sprintf("%s: rank %v", c.Desc, R[i][j]), c)
+				}
 			} else {
 				if i == j && !Cm[i][i] {
 					r.Violation(u.name+": CompareValues(a,a) is false"+tg(i), c.Desc, c)
@@ -127,6 +131,9 @@ func laws[T any](r *engine.Rec, u uni[T], which string) {
 				}
 				if u.ref != nil && Cm[i][j] != (u.ref(u.vals[i], u.vals[j]) == age.EqualRank) {
 					r.Violation(u.name+": CompareValues differs from reference equality"+tg(i, j), c.Desc, c)
+				}
+				if u.eqRef != nil && Cm[i][j] != u.eqRef(u.vals[i], u.vals[j]) {
+					r.Violation(u.name+": CompareValues differs from reference equality"+tg(i, j), fmt.Sprintf("%s: compare %v", c.Desc, Cm[i][j]), c)
 				}
 			}
 		}
@@ -258,7 +265,10 @@ func typedUnits(which string) []engine.Unit {
 			}
 		}
 		cs = append(cs, complex(3, 4), complex(4, 3), complex(5, 0), complex(-5, 0), complex(-5, negZero), complex(0, 5),
-			complex(math.Inf(1), 1), complex(math.Inf(1), 2), complex(1, math.Inf(-1)), complex(math.NaN(), 0))
+			complex(math.Inf(1), 1), complex(math.Inf(1), 2), complex(1, math.Inf(-1)), complex(math.NaN(), 0),
+			// exactly one part not-a-number, the other ordinary, differing or infinite; both parts not-a-number
+			complex(math.NaN(), 1), complex(math.NaN(), 2), complex(1, math.NaN()), complex(2, math.NaN()), complex(math.NaN(), math.NaN()),
+			complex(math.NaN(), math.Inf(1)), complex(math.Inf(-1), math.NaN()), complex(math.NaN(), 1))
 		laws(r, uni[complex128]{name: "complex128", vals: cs, tag: complexTag}, which)
 		var plain []complex128
 		for _, c := range cs {
@@ -437,6 +447,72 @@ func typedUnits(which string) []engine.Unit {
 			return ord(len(ka), len(kb))
 		}
 		laws(r, uni[map[string]int]{name: "map[string]int", vals: ms, ref: ref}, which)
+		// keys that a lookup cannot find again: every NaN is a key of its own. Reference: key-then-value over
+		// the sorted (key, value) pairs, NaN ranking Equal to NaN and after every number as for float leaves.
+		nan := math.NaN()
+		mk := func(pairs ...float64) map[float64]int {
+			m := map[float64]int{}
+			for i := 0; i+1 < len(pairs); i += 2 {
+				m[pairs[i]] = int(pairs[i+1])
+			}
+			return m
+		}
+		fm := []map[float64]int{mk(), mk(nan, 1), mk(nan, 2), mk(nan, 1), mk(nan, 1, nan, 2), mk(nan, 2, nan, 1), mk(1, 1), mk(1, 1, nan, 1), mk(nan, 1, 1, 1), mk(1, 2, nan, 1), mk(nan, 1, nan, 1)}
+		type fkv struct {
+			k float64
+			v int
+		}
+		rankF := func(a, b float64) age.Rank {
+			switch {
+			case a != a && b != b:
+				return age.EqualRank
+			case a != a:
+				return age.GreaterRank
+			case b != b:
+				return age.LesserRank
+			}
+			return ord(a, b)
+		}
+		entries := func(m map[float64]int) []fkv {
+			var es []fkv
+			for k, v := range m {
+				es = append(es, fkv{k, v})
+			}
+			sort.Slice(es, func(i, j int) bool {
+				if r := rankF(es[i].k, es[j].k); r != age.EqualRank {
+					return r == age.LesserRank
+				}
+				return es[i].v < es[j].v
+			})
+			return es
+		}
+		laws(r, uni[map[float64]int]{name: "map[float64]int with NaN keys", vals: fm, tag: func(m map[float64]int) string {
+			n := 0
+			for k := range m {
+				if k != k {
+					n++
+				}
+			}
+			switch n {
+			case 0:
+				return ""
+			case 1:
+				return "one NaN key"
+			}
+			return "several NaN keys"
+		}, eqRef: func(a, b map[float64]int) bool {
+			// the same multiset of (key, value) pairs; the order among keys that rank Equal is nobody's to fix
+			ea, eb := entries(a), entries(b)
+			if len(ea) != len(eb) {
+				return false
+			}
+			for i := range ea {
+				if rankF(ea[i].k, eb[i].k) != age.EqualRank || ea[i].v != eb[i].v {
+					return false
+				}
+			}
+			return true
+		}}, which)
 	})
 	add("collections-typed", func(r *engine.Rec) {
 		N := common.N()
@@ -862,7 +938,8 @@ func register(id, which, title string) {
 			us := typedUnits(which)
 			us = append(us, engine.Unit{Name: "any-universe", Run: anyUnit(which)},
 				engine.Unit{Name: "copies-mutations", Run: copiesAndMutations(which)},
-				engine.Unit{Name: "history", Run: history(which)})
+				engine.Unit{Name: "history", Run: history(which)},
+				engine.Unit{Name: "nested-nil", Run: nilFirst(which)})
 			return us
 		},
 	})
